@@ -14,6 +14,7 @@ type Ctx struct {
 	Tier string
 	// Scale multiplies case counts (quick=1, thorough=20 by default).
 	Scale int
+	W     *Worker
 }
 
 type propFn func(*Ctx)
@@ -31,7 +32,12 @@ func main() {
 	replay := flag.String("replay", "", "replay file (re-run one recorded case)")
 	flag.StringVar(&repoDir, "repo", "/repo", "repository root")
 	flag.StringVar(&verifDir, "verif", "/verif", "verif root")
+	worker := flag.Bool("worker", false, "internal: run as session worker")
 	flag.Parse()
+	if *worker {
+		workerMain()
+		return
+	}
 
 	fn, ok := props[*prop]
 	if !ok {
